@@ -189,7 +189,19 @@ func (x *gen) labelList(label string, exclude []string) []string {
 			out = append(out, l)
 		}
 	}
-	return out
+	return x.maybeRepeat(out, label, 8)
+}
+
+// maybeRepeat names one label of the list a second time (legal PromQL, same meaning), 1 time in den.
+func (x *gen) maybeRepeat(ls []string, label string, den int) []string {
+	if !x.g.RepeatLabels || len(ls) == 0 || !x.chance(1, den, label+".rep") {
+		return ls
+	}
+	dup := ls[x.n(len(ls), label+".repwhich")]
+	at := x.n(len(ls)+1, label+".repat")
+	out := append([]string{}, ls[:at]...)
+	out = append(out, dup)
+	return append(out, ls[at:]...)
 }
 
 func contains(l []string, s string) bool {
@@ -648,8 +660,13 @@ func (x *gen) join(d int) ex {
 	if d < 1 {
 		d = 1
 	}
-	if x.g.Aggregations && x.chance(2, 5, "overlap") {
-		return x.joinOverlap()
+	if x.g.Aggregations {
+		switch k := x.n(10, "directed"); {
+		case k >= 8:
+			return x.joinReintro()
+		case k >= 4:
+			return x.joinOverlap()
+		}
 	}
 	l, r := x.side(d-1), x.side(d-1)
 	return x.binvv(l, r)
@@ -669,7 +686,7 @@ func (x *gen) someOf(pool, must []string, label string) []string {
 			out = append(out, l)
 		}
 	}
-	return out
+	return x.maybeRepeat(out, label, 5)
 }
 
 // aggWith renders an aggregation with a given modifier ("by" | "without" | "") and label list.
@@ -703,6 +720,152 @@ func (x *gen) without1(ls []string, drop string) []string {
 		}
 	}
 	return out
+}
+
+// joinReintro: a label L is removed on one side (without / one-to-one ignoring / by without L) and then
+// brought back (group_left(L) / group_right(L) from a side that carries it, count_values "L",
+// label_replace / label_join with destination L), and the result is joined on L (or without modifier, with a
+// positive matcher on L) with a side that carries L.  The re-introduced side DOES carry L.
+func (x *gen) joinReintro() ex {
+	g := x.g
+	labels := g.U.Labels
+	L := x.pick(labels, "riL")
+	others := x.without1(labels, L)
+	if len(others) == 0 {
+		return x.joinOverlap()
+	}
+	M := x.pick(others, "riM")
+	sel := func() ex { return ex{x.selectorCore(0), true} }
+	arop := func() string {
+		if g.Arith {
+			return x.pick(arithOps, "arop")
+		}
+		return x.pick(cmpOps, "cmpop")
+	}
+
+	// 1. remove L
+	var removed ex
+	switch x.choose([]prod{{"without", 5}, {"ignoring", 3}, {"by", 2}}, "rirem") {
+	case "without":
+		removed = x.aggWith(sel(), "without", x.someOf(x.without1(others, M), []string{L}, "riw"))
+	case "ignoring":
+		if g.Ignoring && (g.Arith || g.Compare) {
+			removed = ex{sel().s + " " + arop() + " ignoring(" + strings.Join(x.someOf(x.without1(others, M), []string{L}, "rii"), ", ") + ") " + sel().s, false}
+		} else {
+			removed = x.aggWith(sel(), "without", x.maybeRepeat([]string{L}, "riw1", 3))
+		}
+	default:
+		removed = x.aggWith(sel(), "by", x.someOf(others, []string{M}, "rib"))
+	}
+
+	// 2. bring L back
+	ps := []prod{{"cv", 2}}
+	if g.GroupLeft && g.On && (g.Arith || g.Compare) {
+		ps = append(ps, prod{"gl", 5})
+	}
+	if g.GroupRight && g.On && (g.Arith || g.Compare) {
+		ps = append(ps, prod{"gr", 3})
+	}
+	if g.LabelRewrite {
+		ps = append(ps, prod{"rewrite", 3})
+	}
+	var back ex
+	switch x.choose(ps, "riback") {
+	case "gl":
+		inc := x.maybeRepeat(x.someOf(x.without1(others, M), []string{L}, "riinc"), "riincrep", 6)
+		back = ex{x.operand(removed) + " " + arop() + " on(" + strings.Join(x.maybeRepeat([]string{M}, "rion", 6), ", ") + ") group_left(" + strings.Join(inc, ", ") + ") " + sel().s, false}
+	case "gr":
+		inc := x.maybeRepeat(x.someOf(x.without1(others, M), []string{L}, "riinc"), "riincrep", 6)
+		back = ex{sel().s + " " + arop() + " on(" + strings.Join(x.maybeRepeat([]string{M}, "rion", 6), ", ") + ") group_right(" + strings.Join(inc, ", ") + ") " + x.operand(removed), false}
+	case "rewrite":
+		if x.chance(1, 2, "rijoin") {
+			back = ex{"label_join(" + removed.s + ", " + quote(L) + `, "-", ` + quote(M) + ")", true}
+		} else {
+			back = ex{"label_replace(" + removed.s + ", " + quote(L) + `, "1", "", "")`, true}
+		}
+	default:
+		mod := x.pick([]string{"", "by", "without"}, "ricvmod")
+		var ls []string
+		switch mod {
+		case "by":
+			ls = x.someOf(others, []string{M}, "ricvb")
+		case "without":
+			ls = x.someOf(x.without1(others, M), nil, "ricvw")
+		}
+		inner := removed
+		if mod == "" {
+			back = ex{"count_values(" + quote(L) + ", " + inner.s + ")", true}
+		} else {
+			back = ex{"count_values " + mod + "(" + strings.Join(ls, ", ") + ") (" + quote(L) + ", " + inner.s + ")", true}
+		}
+	}
+
+	// 3. the other side carries L
+	var other ex
+	switch x.choose([]prod{{"sel", 4}, {"selm", 3}, {"by", 2}, {"side", 1}}, "rioth") {
+	case "sel":
+		other = sel()
+	case "selm":
+		m := x.pick(g.U.Metrics, "metric")
+		mt := L + `="1"`
+		if g.RegexMatchers && x.chance(1, 2, "riothre") {
+			mt = L + `=~".+"`
+		}
+		other = ex{m + "{" + mt + "}", true}
+	case "by":
+		other = x.aggWith(sel(), "by", x.someOf(others, []string{L}, "riothb"))
+	default:
+		other = x.side(0)
+	}
+	l, r := other, back
+	if x.chance(1, 3, "riswap") {
+		l, r = back, other
+	}
+
+	// 4. outer operator: mostly on(L ...), sometimes no modifier / anything
+	var kinds []string
+	if g.SetOps {
+		kinds = append(kinds, "and", "and", "unless")
+	}
+	if g.Arith {
+		kinds = append(kinds, "arith")
+	}
+	if g.Compare {
+		kinds = append(kinds, "cmp")
+	}
+	if len(kinds) == 0 {
+		return x.binvv(l, r)
+	}
+	kind := x.pick(kinds, "binkind")
+	op := kind
+	switch kind {
+	case "arith":
+		op = x.pick(arithOps, "arop")
+	case "cmp":
+		op = x.pick(cmpOps, "cmpop")
+	}
+	mod := ""
+	switch x.choose([]prod{{"on", 6}, {"none", 2}, {"random", 1}}, "rimatch") {
+	case "on":
+		if g.On {
+			mod = "on(" + strings.Join(x.maybeRepeat(x.someOf(x.without1(others, M), []string{L}, "rionl"), "rionlrep", 6), ", ") + ") "
+			if kind == "arith" || kind == "cmp" {
+				gopts := []string{"", ""}
+				if g.GroupLeft {
+					gopts = append(gopts, "group_left")
+				}
+				if g.GroupRight {
+					gopts = append(gopts, "group_right")
+				}
+				if gm := x.pick(gopts, "group"); gm != "" {
+					mod += gm + "() "
+				}
+			}
+		}
+	case "random":
+		mod = x.matching(l, r, kind == "arith" || kind == "cmp")
+	}
+	return ex{x.operand(l) + " " + op + " " + mod + x.operand(r), false}
 }
 
 func (x *gen) joinOverlap() ex {
